@@ -42,3 +42,14 @@ Print Assumptions C05_queries_panic_only_by_overflow.
 Theorem C05_build_panic_sites : forall e s, build e = BuildPanic s -> s = PanicOverflow \/ s = PanicCompile.
 Proof. exact build_panic_sites. Qed.
 Print Assumptions C05_build_panic_sites.
+
+From WaxModel Require Import Encode Query.
+From WaxProofs Require Import OwnedFacts BuiltFacts.
+
+(* every glob that builds has repetition bounds below 2^64 and ordered at every depth (the parser only reads bounds that fit a
+   usize; the rule checker orders them), so constructing a combinator from built globs - which re-annotates every tree - never
+   panics *)
+Theorem C05_combinators_of_built_globs_are_total : forall ts, Forall (fun t => exists e r, build e = BuildOk t r) ts ->
+  any_tree ts = Ok (TAlt (0, 0) (map (respan (fun _ => (0, 0))) ts)).
+Proof. exact built_any_total. Qed.
+Print Assumptions C05_combinators_of_built_globs_are_total.
